@@ -256,6 +256,13 @@ def pipe_mechanism(ctx, obs, obs_path, label):
                     continue
                 ctx.drift.append("%s W=%d: mechanism invariant %s fails on reconstructed state of run %d" % (label, W, inv, idx))
                 continue
+            if "The error occurred when TLC was evaluating" in r["out"] or "Attempted to" in r["out"]:
+                # a recorded event that Pipe.tla cannot even evaluate (e.g. a worker number outside 1..W): the run is not a
+                # behaviour of the mechanism model; the property-layer verdict on the same runs is Trace_PipeObs's
+                k = re.findall(r"/\\ run = (\d+)", r["out"])
+                ctx.drift.append("%s W=%d: Trace_Pipe cannot evaluate the events of run %s against Pipe.tla; the later runs of "
+                                 "this group were not validated" % (label, W, k[-1] if k else "?"))
+                continue
             raise ToolError("Trace_Pipe run failed:\n" + "\n".join(r["out"].splitlines()[-40:]))
         acc = sum(1 for p in r["prints"] if p[0] == "STAT")
         dr = [p for p in r["prints"] if p[0] == "DRIFT"]
@@ -330,6 +337,8 @@ def c05(ctx):
     # the other workers run ahead, wait for their turn, see the upstream exhausted, while one item is still being processed
     slow += [{"mode": "free", "W": w, "N": n, "seed": 5, "slow": 0.0, "slow_item": k, "slow_ms": 250}
              for w in ((2, 3, 4) if q else (1, 2, 3, 4, 6)) for n in ((2, 4, 5) if q else (1, 2, 3, 4, 5, 7)) for k in range(n)]
+    # a processing function that needs 1 MiB of stack (half of the default thread stack): the same map for 0 and more threads
+    slow += [{"mode": "free", "W": w, "N": 5, "seed": 9, "slow": 0.0, "deep_kib": 1024} for w in ((0, 2) if q else (0, 1, 2, 4, 8))]
     pipe_judge(ctx, slow, "B-slow-item", C05_CLAUSES)
     # several pipes alive at once in one process (side by side / one feeding the other): each is a sequential map on its own
     multi = [{"mode": "multi", "W": w, "N": n, "pipes": k, "nested": nested, "seed": 40 + w}
@@ -337,6 +346,10 @@ def c05(ctx):
              for nested in (False, True)]
     # more worker threads alive at once than the machine has cores (a shared fixed-size thread pool would starve the later pipes)
     multi += [{"mode": "multi", "W": 8, "N": 9, "pipes": 3, "nested": nested, "seed": 77} for nested in (False, True)]
+    # ... with enough items that every worker of the earlier pipes is waiting (for its turn or for room in the channel) while
+    # the consumer asks the last pipe for its first item: 24 and 40 workers that must all be running at the same time
+    multi += [{"mode": "multi", "W": 8, "N": 40, "pipes": k, "nested": nested, "seed": 80 + k}
+              for (k, nested) in ((3, False), (5, False), (3, True))]
     pipe_judge(ctx, multi, "B-multi", C05_CLAUSES, mech=False)
 
 
